@@ -506,6 +506,14 @@ func c11Sets(r *run.Run) {
 							c.Fail("C11.components", "FixComponents", "flags/arguments of component %d changed", k)
 						}
 					}
+					// ... and, glyph indices apart, the rewritten glyph is the same glyph: the instruction block
+					// (also an empty one that is present) and the encoded length
+					if !bytes.Equal(d1.Instructions, d2.Instructions) || (d1.Instructions == nil) != (d2.Instructions == nil) {
+						c.Fail("C11.components", "FixComponents instructions", "FixComponents changes the instruction block from %#v to %#v (%s)", d1.Instructions, d2.Instructions, s.desc)
+					}
+					if l1, l2 := len((glyf.Glyphs{g}).Encode().GlyfData), len((glyf.Glyphs{g2}).Encode().GlyfData); l1 != l2 {
+						c.Fail("C11.components", "FixComponents length", "the glyph takes %d bytes, after FixComponents %d (%s)", l1, l2, s.desc)
+					}
 				}
 			}
 			if nontrivial {
